@@ -14,7 +14,7 @@ def search(max_conds=3):
                 parts = []
                 for i in range(nc):
                     tag = 'if' if i == 0 else 'elif'
-                    body = '' if empties[i] else '[b%d:<dtml-var c%d>:<dtml-if c%d>y<dtml-else>n</dtml-if>]' % (i, i, i)
+                    body = '' if empties[i] else '[b%d:<dtml-var c%d>:<dtml-if c%d>y<dtml-else>n</dtml-if><dtml-unless c%d>u</dtml-unless><dtml-call c%d>:<dtml-var c%d>]' % (i, i, i, i, i, i)
                     parts.append('<dtml-%s c%d>%s' % (tag, i, body))
                 if has_else:
                     parts.append('<dtml-else>[else:' + ''.join('<dtml-var c%d missing="">' % i for i in range(nc)) + ']')
@@ -38,7 +38,7 @@ def search(max_conds=3):
                         out = 'EXC:%r' % (e,)
                     first = next((i for i, (tag, v) in enumerate(assign) if tag == 'T'), None)
                     if first is not None:
-                        want = '' if empties[first] else '[b%d:1:y]' % first
+                        want = '' if empties[first] else '[b%d:1:y:1]' % first
                         want_calls = [1 if (i <= first and assign[i][0] != 'U') else 0 for i in range(nc)]
                     else:
                         if has_else:
